@@ -1,6 +1,7 @@
 SPECIFICATION Spec
 CONSTANT MaxV = 4
 CONSTANT Limits = {0, 2, 3, 4}
+CONSTANT MaxCovers = 1
 CONSTANT SmallFirst = TRUE
 INVARIANT C10_LabelIsWholeClique
 INVARIANT C10_EveryEdgeOneLabel
